@@ -27,7 +27,7 @@ ELEMENTARY_FAMILIES = {
     'p': ['general', 'axis+', 'axis-', '3pt-Dpos', '3pt-Dneg', '3pt-D0-C',
           '3pt-D0-B', '3pt-D0-A', '3pt-generic', '3pt-axis-neg',
           '3pt-axis-pos', '3pt-close', '3pt-D0-large', '3pt-thin',
-          '3pt-D0-flat', '3pt-far-small-D'],
+          '3pt-D0-flat', '3pt-far-small-D', '3pt-decimal-sweep'],
     'px': ['any'], 'py': ['any'], 'pz': ['any'],
     'so': ['any'], 's': ['any'], 'sx': ['any'], 'sy': ['any'], 'sz': ['any'],
     'c/x': ['any'], 'c/y': ['any'], 'c/z': ['any'],
@@ -57,6 +57,31 @@ def random_rotation(rng):
         [a*a + b*b - c*c - d*d, 2*(b*c - a*d), 2*(b*d + a*c)],
         [2*(b*c + a*d), a*a - b*b + c*c - d*d, 2*(c*d - a*b)],
         [2*(b*d - a*c), 2*(c*d + a*b), a*a - b*b - c*c + d*d]])
+
+
+def _p3_n(crd):
+    d12 = [crd[3 + k] - crd[k] for k in range(3)]
+    d13 = [crd[6 + k] - crd[k] for k in range(3)]
+    return (d12[1] * d13[2] - d12[2] * d13[1],
+            d12[2] * d13[0] - d12[0] * d13[2],
+            d12[0] * d13[1] - d12[1] * d13[0])
+
+
+def _p3_a(crd):
+    return _p3_n(crd)[0]
+
+
+def _p3_b(crd):
+    return _p3_n(crd)[1]
+
+
+def _p3_c(crd):
+    return _p3_n(crd)[2]
+
+
+def _p3_d(crd):
+    nrm = _p3_n(crd)
+    return sum(nrm[k] * crd[k] for k in range(3))
 
 
 def three_points(rng, normal, dval, close=False):
@@ -194,6 +219,78 @@ def elementary(rng, kind, family):
                 k = rng.randrange(3)
                 out[3 * k:3 * k + 3] = [0.0, 0.0, 0.0]
             return out
+        if family == '3pt-decimal-sweep':
+            # three points with a few decimals each on a plane a x + b y +
+            # c z = d with small integer a, b, c (some of them zero) and d
+            # zero, tiny or ordinary, at every scale from centimetres to
+            # kilometres and from fat to very thin triangles: the rule is
+            # decided by the numbers as typed
+            from fractions import Fraction as Fr
+            while True:
+                abc = [rng.choice([0, 0, 1, -1, 2, -2, 3, -4, 5])
+                       for _ in range(3)]
+                if any(abc):
+                    break
+            piv = rng.choice([k for k in range(3) if abc[k]])
+            # the pivot coefficient must divide decimals exactly
+            abc[piv] = rng.choice([1, -1, 2, -2, 4, 5, -5])
+            dval = Fr(rng.choice(['0', '0', '0', '1e-6', '-1e-6', '1e-4',
+                                  '-1e-4', '0.01', '-0.01', '1', '-1', '250',
+                                  '-1000']))
+            scale = 10 ** rng.randint(0, 6)
+            digits = rng.randint(0, 3)
+            free = [k for k in range(3) if k != piv]
+
+            def point(u, v):
+                crd = [Fr(0)] * 3
+                crd[free[0]] = Fr(round(u, digits)).limit_denominator(10**digits)
+                crd[free[1]] = Fr(round(v, digits)).limit_denominator(10**digits)
+                crd[piv] = (dval - abc[free[0]] * crd[free[0]]
+                            - abc[free[1]] * crd[free[1]]) / abc[piv]
+                return crd
+            for _ in range(50):
+                u0, v0 = rng.uniform(-scale, scale), rng.uniform(-scale, scale)
+                length = 10 ** rng.uniform(-1, math.log10(scale) + 0.01)
+                thin = 10 ** rng.uniform(-5, 0)
+                ang = rng.uniform(0, 6.283)
+                du, dv = length * math.cos(ang), length * math.sin(ang)
+                pts = [point(u0, v0), point(u0 + du, v0 + dv),
+                       point(u0 + rng.uniform(0, 1) * du - thin * dv,
+                             v0 + rng.uniform(0, 1) * dv + thin * du)]
+                d12 = [b - a for a, b in zip(pts[0], pts[1])]
+                d13 = [b - a for a, b in zip(pts[0], pts[2])]
+                nrm = [d12[1] * d13[2] - d12[2] * d13[1],
+                       d12[2] * d13[0] - d12[0] * d13[2],
+                       d12[0] * d13[1] - d12[1] * d13[0]]
+                n2 = float(sum(c * c for c in nrm))
+                l2 = float(sum(c * c for c in d12)) * \
+                    float(sum(c * c for c in d13))
+                if not (l2 > 0 and n2 > 1e-18 * l2):
+                    continue
+                # the deciding quantity (the first of D, C, B, A that is not
+                # zero) must stand clear of what one unit in the last place
+                # of the coordinates can change: between 1/2 and a few dozen
+                # units the rule is a matter of taste, not of arithmetic
+                flat = [c for pnt in pts for c in pnt]
+                clear = True
+                for func in (_p3_d, _p3_c, _p3_b, _p3_a):
+                    val = func(flat)
+                    if val == 0:
+                        continue
+                    spread = 0
+                    for k, crd in enumerate(flat):
+                        if crd:
+                            moved = list(flat)
+                            moved[k] = crd + 1
+                            spread += abs(crd) * abs(func(moved) - val)
+                    clear = abs(val) > 60 * spread * Fr(1, 2**52)
+                    break
+                if clear:
+                    break
+            else:
+                return elementary(rng, 'p', '3pt-axis-pos')
+            rng.shuffle(pts)
+            return [float(c) for pnt in pts for c in pnt]
         if family == '3pt-far-small-D':
             # a plane that misses the origin by a tenth of a millimetre to a
             # millimetre, given by a small triangle hundreds of metres away
